@@ -626,6 +626,11 @@ func (m *Machine) builtin(name string, args []Val, cc *ssa.CallCommon) Val {
 			return iv
 		}
 		return m.newErr("recovered")
+	case "ssa:wrapnilchk":
+		if p, ok := args[0].(Ptr); ok && p.C == nil && p.BA == nil {
+			m.rtPanic("nil-deref (value method called through nil pointer)")
+		}
+		return args[0]
 	case "print", "println":
 		return nil
 	case "close":
